@@ -144,7 +144,7 @@ def known_ids(status="known") -> set:
 @contextlib.contextmanager
 def ambient(case):
     """Run a check under process-wide switches that must NOT influence its result: the stdlib calendar module's first weekday
-    (calendar.setfirstweekday) and pendulum's own week start/end.  Which setting is used is a pure function of the case (a third
+    (calendar.setfirstweekday), the thread's decimal context, and pendulum's own week start/end.  Which setting is used is a pure function of the case (a third
     of the cases keep the defaults).  Seeded changes C15-r5 / C16-r5 - and a genuine defect of first_of/last_of - lived there."""
     import calendar
     import json
@@ -153,12 +153,19 @@ def ambient(case):
     import pendulum
     c = zlib.crc32(json.dumps(case, sort_keys=True, default=str).encode())
     k = 0 if c % 3 == 0 else c // 3
+    import decimal
     calendar.setfirstweekday(k % 7)
     pendulum.week_starts_at(pendulum.WeekDay((k // 7) % 7))
     pendulum.week_ends_at(pendulum.WeekDay((k // 7 + 6) % 7))
+    # the thread's decimal context belongs to the application too (seeded change C13-r6 computed fractions with Decimal)
+    dctx = decimal.getcontext()
+    old_prec, old_rounding = dctx.prec, dctx.rounding
+    dctx.prec = (28, 6, 3, 50)[(k // 49) % 4]
+    dctx.rounding = (decimal.ROUND_HALF_EVEN, decimal.ROUND_DOWN, decimal.ROUND_UP)[(k // 196) % 3]
     try:
         yield k % 7, (k // 7) % 7
     finally:
         calendar.setfirstweekday(0)
         pendulum.week_starts_at(pendulum.MONDAY)
         pendulum.week_ends_at(pendulum.SUNDAY)
+        dctx.prec, dctx.rounding = old_prec, old_rounding
